@@ -1,7 +1,1494 @@
-//! C02 harness (stub until built)
+//! C02 (part 1): implicit threading of globals through functions on Metal.
+//!
+//! request : C02.thread \t <globals> \t <functions> \t <entry index | ->
+//!   global   `name:<E|S|G>[c][x][o]@<class>[:<init global indexes>]`            (`;` separated, declaration order)
+//!   function `name:<modes i|o|b|d… or ->:<items or ->`                          (`;` separated, declaration order)
+//!   item     `<position>.g<k>` (mention of global k)  |  `<position>.c<j>[/<_|g<k>>]…` (call of function j)
+//!            positions: see POSITIONS below (= Model.Usage.bodyPositions) and `da` (default argument)
+//!           C02.src \t <hex of RSSL source>     free-form source (oracle only; the model answers `unsupported`)
+//! observe : defs:<name(params){calls}> …|close:<f>={closure of f, user symbols, sorted};…|entry:locals=…;call=…
+//!           taken from the syntax tree the Metal generator hands to the formatter (verif_generate_ast) and from
+//!           the public GlobalUsageAnalysis::calculate
+//! oracle  : (independent of the model, on the emitted Metal syntax tree)
+//!           O1 every identifier used in a function is a parameter, a local in scope or a file-scope constant;
+//!              default arguments may only mention file-scope names
+//!           O2 every call of an emitted function matches one of its definitions: arity (defaults only at the end),
+//!              and at every parameter that carries a threaded global the argument denotes that same global
+//!           O3 a function has a parameter for a threaded global iff it mentions it or calls a function that needs it;
+//!              non-object globals are passed by reference
 use crate::util::*;
+use rssl::ast;
+use std::collections::{BTreeMap, BTreeSet};
 
-pub fn run(_args: &Args, _out: &mut Out) {
-    eprintln!("C02: harness not built yet");
-    std::process::exit(2);
+// ------------------------------------------------------------------------------------------ program description
+
+#[derive(Clone, Debug, PartialEq)]
+struct GGlobal {
+    name: String,
+    storage: char,
+    is_const: bool,
+    sampler: bool,
+    object: bool,
+    class: String,
+    inits: Vec<usize>,
+}
+
+#[derive(Clone, Debug, PartialEq)]
+enum What {
+    Use(usize),
+    Call(usize, Vec<Option<usize>>),
+}
+
+#[derive(Clone, Debug, PartialEq)]
+struct GItem {
+    pos: String,
+    what: What,
+}
+
+#[derive(Clone, Debug, PartialEq)]
+struct GFunc {
+    name: String,
+    modes: Vec<char>,
+    items: Vec<GItem>,
+}
+
+#[derive(Clone, Debug, PartialEq)]
+struct GProg {
+    globals: Vec<GGlobal>,
+    funcs: Vec<GFunc>,
+    entry: Option<usize>,
+}
+
+const POSITIONS: &[&str] = &[
+    "xs", "vi", "ai", "bl", "ic", "ib", "ec", "et", "ee", "fi", "fd", "fc", "fa", "fb", "wc", "wb", "db", "dc", "sx",
+    "sb", "rt", "tc", "tt", "tf", "sq", "sw", "ct", "si", "ia", "cs", "op", "wr",
+];
+
+/// (class, flags, declaration template with NAME/INIT, read expression, lvalue expression)
+const CLASSES: &[(&str, &str, &str, &str, Option<&str>)] = &[
+    ("plain", "S", "static int NAME = INIT;", "NAME", Some("NAME")),
+    ("plain", "Sc", "static const int NAME = 3;", "NAME", None),
+    ("array", "G", "groupshared int NAME[4];", "NAME[0]", Some("NAME[0]")),
+    ("struct", "S", "static St NAME;", "NAME.a", Some("NAME.a")),
+    ("cbuffer", "E", "ConstantBuffer<CbS> NAME;", "(int)NAME.v.x", None),
+    ("texture", "Eo", "Texture2D<float4> NAME;", "(int)NAME.Load(int3(0, 0, 0)).x", None),
+    ("texarray", "E", "Texture2D<float4> NAME[2];", "(int)NAME[0].Load(int3(0, 0, 0)).x", None),
+    ("sampler", "Exo", "SamplerState NAME = StaticSampler { Filter = MIN_MAG_MIP_LINEAR; };", "(NAME, 1)", None),
+];
+
+impl GGlobal {
+    fn flags(&self) -> String {
+        let mut s = String::new();
+        s.push(self.storage);
+        if self.is_const {
+            s.push('c');
+        }
+        if self.sampler {
+            s.push('x');
+        }
+        if self.object {
+            s.push('o');
+        }
+        s
+    }
+    fn class_row(&self) -> Option<&'static (&'static str, &'static str, &'static str, &'static str, Option<&'static str>)> {
+        let fl = self.flags();
+        CLASSES.iter().find(|c| c.0 == self.class && c.1 == fl)
+    }
+    /// Metal cannot keep it at file scope: it has to be threaded (our reading of the property; the generator's
+    /// own classification is GlobalMode, extracted into Gen.UsageTables)
+    fn threaded(&self) -> bool {
+        !((self.is_const && self.storage == 'S') || self.sampler)
+    }
+}
+
+fn show_prog(p: &GProg) -> String {
+    let gs: Vec<String> = p
+        .globals
+        .iter()
+        .map(|g| {
+            let mut s = format!("{}:{}@{}", g.name, g.flags(), g.class);
+            if !g.inits.is_empty() {
+                s.push(':');
+                s.push_str(&g.inits.iter().map(|i| i.to_string()).collect::<Vec<_>>().join(","));
+            }
+            s
+        })
+        .collect();
+    let fs: Vec<String> = p
+        .funcs
+        .iter()
+        .map(|f| {
+            let modes: String = if f.modes.is_empty() { "-".into() } else { f.modes.iter().collect() };
+            let items: Vec<String> = f
+                .items
+                .iter()
+                .map(|it| match &it.what {
+                    What::Use(g) => format!("{}.g{}", it.pos, g),
+                    What::Call(c, args) => {
+                        let mut s = format!("{}.c{}", it.pos, c);
+                        for a in args {
+                            match a {
+                                None => s.push_str("/_"),
+                                Some(g) => s.push_str(&format!("/g{}", g)),
+                            }
+                        }
+                        s
+                    }
+                })
+                .collect();
+            format!("{}:{}:{}", f.name, modes, if items.is_empty() { "-".into() } else { items.join(",") })
+        })
+        .collect();
+    format!(
+        "C02.thread\t{}\t{}\t{}",
+        if gs.is_empty() { "-".into() } else { gs.join(";") },
+        if fs.is_empty() { "-".into() } else { fs.join(";") },
+        p.entry.map(|e| e.to_string()).unwrap_or("-".into())
+    )
+}
+
+fn parse_prog(line: &str) -> Option<GProg> {
+    let f: Vec<&str> = line.split('\t').collect();
+    if f.len() != 4 || f[0] != "C02.thread" {
+        return None;
+    }
+    let mut globals = Vec::new();
+    if !f[1].is_empty() && f[1] != "-" {
+        for g in f[1].split(';') {
+            let parts: Vec<&str> = g.split(':').collect();
+            if parts.len() < 2 || parts.len() > 3 {
+                return None;
+            }
+            let (fl, class) = parts[1].split_once('@')?;
+            let storage = fl.chars().next()?;
+            if !"ESG".contains(storage) {
+                return None;
+            }
+            let inits = if parts.len() == 3 && !parts[2].is_empty() {
+                parts[2].split(',').map(|x| x.parse::<usize>().ok()).collect::<Option<Vec<_>>>()?
+            } else {
+                Vec::new()
+            };
+            globals.push(GGlobal {
+                name: parts[0].to_string(),
+                storage,
+                is_const: fl[1..].contains('c'),
+                sampler: fl[1..].contains('x'),
+                object: fl[1..].contains('o'),
+                class: class.to_string(),
+                inits,
+            });
+        }
+    }
+    let mut funcs = Vec::new();
+    if !f[2].is_empty() && f[2] != "-" {
+        for fd in f[2].split(';') {
+            let parts: Vec<&str> = fd.split(':').collect();
+            if parts.len() != 3 {
+                return None;
+            }
+            let modes: Vec<char> = if parts[1] == "-" { Vec::new() } else { parts[1].chars().collect() };
+            if modes.iter().any(|c| !"iobd".contains(*c)) {
+                return None;
+            }
+            let mut items = Vec::new();
+            if parts[2] != "-" {
+                for it in parts[2].split(',') {
+                    let (pos, what) = it.split_once('.')?;
+                    if pos != "da" && !POSITIONS.contains(&pos) {
+                        return None;
+                    }
+                    let mut w = what.split('/');
+                    let head = w.next()?;
+                    let what = if let Some(k) = head.strip_prefix('g') {
+                        if w.next().is_some() {
+                            return None;
+                        }
+                        What::Use(k.parse().ok()?)
+                    } else if let Some(k) = head.strip_prefix('c') {
+                        let mut args = Vec::new();
+                        for a in w {
+                            if a == "_" {
+                                args.push(None);
+                            } else {
+                                args.push(Some(a.strip_prefix('g')?.parse().ok()?));
+                            }
+                        }
+                        What::Call(k.parse().ok()?, args)
+                    } else {
+                        return None;
+                    };
+                    items.push(GItem { pos: pos.to_string(), what });
+                }
+            }
+            funcs.push(GFunc { name: parts[0].to_string(), modes, items });
+        }
+    }
+    let entry = if f[3] == "-" { None } else { Some(f[3].parse().ok()?) };
+    Some(GProg { globals, funcs, entry })
+}
+
+// ------------------------------------------------------------------------------------------ source rendering
+
+/// Why a description cannot be turned into a well-typed program (generator bug or hand-written request)
+fn render_src(p: &GProg) -> Result<String, String> {
+    let mut s = String::from("struct CbS { float4 v; };\nstruct St { int a; int b; };\n");
+    for (gi, g) in p.globals.iter().enumerate() {
+        let row = g.class_row().ok_or_else(|| format!("unknown class {}@{}", g.flags(), g.class))?;
+        let mut init = String::from("0");
+        for i in &g.inits {
+            if *i >= gi {
+                return Err("initialiser mentions a later global".into());
+            }
+            let r = p.globals[*i].class_row().ok_or("bad class")?;
+            init = format!("{} + {}", init, r.3.replace("NAME", &p.globals[*i].name));
+        }
+        if !g.inits.is_empty() && !row.2.contains("INIT") {
+            return Err("class has no initialiser".into());
+        }
+        s.push_str(&row.2.replace("NAME", &g.name).replace("INIT", &init));
+        s.push('\n');
+    }
+    for (fi, f) in p.funcs.iter().enumerate() {
+        let is_entry = p.entry == Some(fi);
+        let mut locals = 0usize;
+        let mut body = String::new();
+        let mut default_expr: Option<String> = None;
+        for (k, m) in f.modes.iter().enumerate() {
+            if *m == 'o' {
+                body.push_str(&format!("    p_{} = 0;\n", k));
+            }
+        }
+        for it in &f.items {
+            let mut pre = String::new();
+            let e = match &it.what {
+                What::Use(g) => {
+                    let gl = p.globals.get(*g).ok_or("bad global index")?;
+                    let row = gl.class_row().ok_or("bad class")?;
+                    if it.pos == "wr" {
+                        let lv = row.4.ok_or("wr on a read-only class")?.replace("NAME", &gl.name);
+                        format!("{} = {} + 1", lv, lv)
+                    } else {
+                        row.3.replace("NAME", &gl.name)
+                    }
+                }
+                What::Call(c, args) => {
+                    if *c >= fi {
+                        return Err("call of a later function".into());
+                    }
+                    let callee = &p.funcs[*c];
+                    if p.entry == Some(*c) {
+                        return Err("call of the entry point".into());
+                    }
+                    if args.len() > callee.modes.len() {
+                        return Err("too many arguments".into());
+                    }
+                    if callee.modes[args.len()..].iter().any(|m| *m != 'd') {
+                        return Err("missing argument without default".into());
+                    }
+                    let mut parts = Vec::new();
+                    for (k, a) in args.iter().enumerate() {
+                        let out = matches!(callee.modes[k], 'o' | 'b');
+                        match a {
+                            None => {
+                                if out {
+                                    pre.push_str(&format!("    int l_{} = 0;\n", locals));
+                                    parts.push(format!("l_{}", locals));
+                                    locals += 1;
+                                } else {
+                                    parts.push("1".to_string());
+                                }
+                            }
+                            Some(g) => {
+                                let gl = p.globals.get(*g).ok_or("bad global index")?;
+                                let row = gl.class_row().ok_or("bad class")?;
+                                if out {
+                                    parts.push(row.4.ok_or("read-only global as out argument")?.replace("NAME", &gl.name));
+                                } else {
+                                    parts.push(row.3.replace("NAME", &gl.name));
+                                }
+                            }
+                        }
+                    }
+                    format!("{}({})", callee.name, parts.join(", "))
+                }
+            };
+            if it.pos == "da" {
+                if default_expr.is_some() || !f.modes.contains(&'d') {
+                    return Err("default-argument item without a (single) defaulted parameter".into());
+                }
+                if !pre.is_empty() {
+                    return Err("out argument inside a default argument".into());
+                }
+                default_expr = Some(e);
+                continue;
+            }
+            body.push_str(&pre);
+            let l = locals;
+            let stmt = match it.pos.as_str() {
+                "xs" | "wr" => format!("{};", e),
+                "vi" => {
+                    locals += 1;
+                    format!("int l_{} = {};", l, e)
+                }
+                "ai" => {
+                    locals += 1;
+                    format!("int l_{}[2] = {{ {}, 1 }};", l, e)
+                }
+                "bl" => format!("{{ {}; }}", e),
+                "ic" => format!("if ({} != 12345) {{ }}", e),
+                "ib" => format!("if (true) {{ {}; }}", e),
+                "ec" => format!("if ({} != 12345) {{ }} else {{ }}", e),
+                "et" => format!("if (true) {{ {}; }} else {{ }}", e),
+                "ee" => format!("if (true) {{ }} else {{ {}; }}", e),
+                "fi" => format!("for ({}; false; ) {{ }}", e),
+                "fd" => {
+                    locals += 1;
+                    format!("for (int l_{} = {}; false; ) {{ }}", l, e)
+                }
+                "fc" => format!("for (; {} == 12345; ) {{ }}", e),
+                "fa" => format!("for (; false; {}) {{ }}", e),
+                "fb" => format!("for (; false; ) {{ {}; }}", e),
+                "wc" => format!("while ({} == 12345) {{ }}", e),
+                "wb" => format!("while (false) {{ {}; }}", e),
+                "db" => format!("do {{ {}; }} while (false);", e),
+                "dc" => format!("do {{ }} while ({} == 12345);", e),
+                "sx" => format!("switch ({}) {{ default: break; }}", e),
+                "sb" => format!("switch (1) {{ case 1: {}; break; }}", e),
+                "rt" => {
+                    if is_entry {
+                        return Err("return value in the entry point".into());
+                    }
+                    format!("return {};", e)
+                }
+                "tc" => format!("({} != 12345) ? 1 : 2;", e),
+                "tt" => format!("true ? {} : 2;", e),
+                "tf" => format!("true ? 1 : {};", e),
+                "sq" => format!("({}, 1);", e),
+                "sw" => format!("int2({}, 1).x;", e),
+                "ct" => format!("int2({}, 1);", e),
+                "si" => {
+                    locals += 1;
+                    format!("int l_{}[2]; l_{}[{}];", l, l, e)
+                }
+                "ia" => format!("max({}, 1);", e),
+                "cs" => format!("(float){};", e),
+                "op" => format!("{} + 1;", e),
+                other => return Err(format!("unknown position {}", other)),
+            };
+            body.push_str("    ");
+            body.push_str(&stmt);
+            body.push('\n');
+        }
+        if is_entry {
+            if f.modes != ['i'] {
+                return Err("entry point must have exactly one in parameter".into());
+            }
+            s.push_str(&format!(
+                "[numthreads(8, 1, 1)]\nvoid {}(uint3 p_0 : SV_DispatchThreadID) {{\n{}}}\n",
+                f.name, body
+            ));
+        } else {
+            let last_d = f.modes.iter().rposition(|m| *m == 'd');
+            let mut seen_d = false;
+            let mut params = Vec::new();
+            for (k, m) in f.modes.iter().enumerate() {
+                if seen_d && *m != 'd' {
+                    return Err("parameter without default after a defaulted one".into());
+                }
+                params.push(match m {
+                    'i' => format!("int p_{}", k),
+                    'o' => format!("out int p_{}", k),
+                    'b' => format!("inout int p_{}", k),
+                    _ => {
+                        seen_d = true;
+                        let d = if Some(k) == last_d { default_expr.clone().unwrap_or("1".into()) } else { "1".into() };
+                        format!("int p_{} = {}", k, d)
+                    }
+                });
+            }
+            s.push_str(&format!("int {}({}) {{\n{}    return 0;\n}}\n", f.name, params.join(", "), body));
+        }
+    }
+    if let Some(e) = p.entry {
+        let f = p.funcs.get(e).ok_or("bad entry index")?;
+        s.push_str(&format!("Pipeline P {{ ComputeShader = {}; }}\n", f.name));
+    }
+    Ok(s)
+}
+
+// ------------------------------------------------------------------------------------------ walking the Metal syntax tree
+
+#[derive(Clone, Debug)]
+struct PInfo {
+    name: String,
+    by_ref: bool,
+    is_tt: bool,
+    has_default: bool,
+    default_idents: Vec<String>,
+}
+
+#[derive(Clone, Debug)]
+struct CallInfo {
+    callee: String,
+    /// rendered arguments
+    args: Vec<String>,
+    /// for each argument: the set of plain identifiers it mentions, and whether it *is* a plain identifier
+    arg_idents: Vec<(Vec<String>, bool)>,
+    in_default: bool,
+}
+
+#[derive(Clone, Debug, Default)]
+struct DefInfo {
+    name: String,
+    params: Vec<PInfo>,
+    calls: Vec<CallInfo>,
+    /// identifiers used in the body that are not in scope (params, locals, file scope)
+    unscoped: Vec<String>,
+    /// identifiers mentioned anywhere in the body or default arguments (not callee names)
+    mentioned: BTreeSet<String>,
+    locals: Vec<String>,
+    has_body: bool,
+    in_helper_ns: bool,
+}
+
+fn decl_name(d: &ast::Declarator) -> (Option<String>, bool) {
+    match d {
+        ast::Declarator::Empty => (None, false),
+        ast::Declarator::Identifier(id, _) => (id.identifiers.last().map(|l| l.node.clone()), false),
+        ast::Declarator::Pointer(p) => decl_name(&p.inner),
+        ast::Declarator::Reference(r) => (decl_name(&r.inner).0, true),
+        ast::Declarator::Array(a) => decl_name(&a.inner),
+    }
+}
+
+fn trivial(id: &ast::ScopedIdentifier) -> Option<&str> {
+    id.try_trivial().map(|l| l.node.as_str())
+}
+
+fn is_true_type(id: &ast::ScopedIdentifier) -> bool {
+    id.identifiers.last().map(|l| l.node == "true_type").unwrap_or(false)
+}
+
+struct Walker<'a> {
+    /// names of the generated program's functions (calls to them are recorded)
+    funcs: &'a BTreeSet<String>,
+    globals: &'a BTreeSet<String>,
+    file_scope: &'a BTreeSet<String>,
+    scopes: Vec<Vec<String>>,
+    cur: DefInfo,
+    in_default: bool,
+}
+
+impl<'a> Walker<'a> {
+    fn in_scope(&self, n: &str) -> bool {
+        self.file_scope.contains(n) || self.scopes.iter().any(|s| s.iter().any(|x| x == n))
+    }
+    fn idents_of(&self, e: &ast::Expression, out: &mut Vec<String>) {
+        match e {
+            ast::Expression::Literal(_) => {}
+            ast::Expression::Identifier(id) => {
+                if let Some(n) = trivial(id) {
+                    out.push(n.to_string());
+                }
+            }
+            ast::Expression::UnaryOperation(_, a) => self.idents_of(&a.node, out),
+            ast::Expression::BinaryOperation(_, a, b) => {
+                self.idents_of(&a.node, out);
+                self.idents_of(&b.node, out);
+            }
+            ast::Expression::TernaryConditional(a, b, c) => {
+                self.idents_of(&a.node, out);
+                self.idents_of(&b.node, out);
+                self.idents_of(&c.node, out);
+            }
+            ast::Expression::ArraySubscript(a, b) => {
+                self.idents_of(&a.node, out);
+                self.idents_of(&b.node, out);
+            }
+            ast::Expression::Member(a, _) => self.idents_of(&a.node, out),
+            ast::Expression::Call(f, _, args) => {
+                if !matches!(f.node, ast::Expression::Identifier(_)) {
+                    self.idents_of(&f.node, out);
+                }
+                for a in args {
+                    self.idents_of(&a.node, out);
+                }
+            }
+            ast::Expression::Cast(_, a) => self.idents_of(&a.node, out),
+            ast::Expression::BracedInit(_, inits) => {
+                for i in inits {
+                    self.idents_of_init(i, out);
+                }
+            }
+            ast::Expression::SizeOf(_) => {}
+            ast::Expression::AmbiguousParseBranch(_) => {}
+        }
+    }
+    fn idents_of_init(&self, i: &ast::Initializer, out: &mut Vec<String>) {
+        match i {
+            ast::Initializer::Expression(e) => self.idents_of(&e.node, out),
+            ast::Initializer::Aggregate(v) => {
+                for x in v {
+                    self.idents_of_init(x, out);
+                }
+            }
+            ast::Initializer::StaticSampler(_) => {}
+        }
+    }
+    fn render_arg(&self, e: &ast::Expression) -> String {
+        if let ast::Expression::Call(f, _, args) = e {
+            if let ast::Expression::Identifier(id) = &f.node {
+                if is_true_type(id) && args.is_empty() {
+                    return "#tt".into();
+                }
+            }
+        }
+        if let ast::Expression::Member(obj, member) = e {
+            if let ast::Expression::Identifier(id) = &obj.node {
+                if let (Some(o), Some(m)) = (trivial(id), trivial(member)) {
+                    if o.starts_with("set") && o[3..].chars().all(|c| c.is_ascii_digit()) && o.len() > 3 {
+                        return format!("set.{}", m);
+                    }
+                }
+            }
+        }
+        let mut ids = Vec::new();
+        self.idents_of(e, &mut ids);
+        let gs: BTreeSet<&String> = ids.iter().filter(|n| self.globals.contains(*n)).collect();
+        if gs.len() == 1 {
+            return (*gs.iter().next().unwrap()).clone();
+        }
+        if let ast::Expression::Identifier(id) = e {
+            if let Some(n) = trivial(id) {
+                if !(n.starts_with("l_") || n.starts_with("p_") || n.starts_with("__")) {
+                    return n.to_string();
+                }
+            }
+        }
+        "_".into()
+    }
+    fn expr(&mut self, e: &ast::Expression) {
+        match e {
+            ast::Expression::Literal(_) => {}
+            ast::Expression::Identifier(id) => {
+                if let Some(n) = trivial(id) {
+                    self.cur.mentioned.insert(n.to_string());
+                    let ok = if self.in_default { self.file_scope.contains(n) } else { self.in_scope(n) };
+                    if !ok {
+                        self.cur.unscoped.push(if self.in_default { format!("{} (default argument)", n) } else { n.to_string() });
+                    }
+                }
+            }
+            ast::Expression::UnaryOperation(_, a) => self.expr(&a.node),
+            ast::Expression::BinaryOperation(_, a, b) => {
+                self.expr(&a.node);
+                self.expr(&b.node);
+            }
+            ast::Expression::TernaryConditional(a, b, c) => {
+                self.expr(&a.node);
+                self.expr(&b.node);
+                self.expr(&c.node);
+            }
+            ast::Expression::ArraySubscript(a, b) => {
+                self.expr(&a.node);
+                self.expr(&b.node);
+            }
+            ast::Expression::Member(a, _) => self.expr(&a.node),
+            ast::Expression::Call(f, targs, args) => {
+                let mut callee_is_name = false;
+                if let ast::Expression::Identifier(id) = &f.node {
+                    callee_is_name = true;
+                    if let Some(n) = trivial(id) {
+                        if self.funcs.contains(n) {
+                            let rendered: Vec<String> = args.iter().map(|a| self.render_arg(&a.node)).collect();
+                            let arg_idents = args
+                                .iter()
+                                .map(|a| {
+                                    let mut v = Vec::new();
+                                    self.idents_of(&a.node, &mut v);
+                                    (v, matches!(&a.node, ast::Expression::Identifier(i) if trivial(i).is_some()))
+                                })
+                                .collect();
+                            self.cur.calls.push(CallInfo {
+                                callee: n.to_string(),
+                                args: rendered,
+                                arg_idents,
+                                in_default: self.in_default,
+                            });
+                        }
+                    }
+                }
+                if !callee_is_name {
+                    self.expr(&f.node);
+                }
+                for t in targs {
+                    if let ast::ExpressionOrType::Expression(e) = t {
+                        self.expr(&e.node);
+                    }
+                }
+                for a in args {
+                    self.expr(&a.node);
+                }
+            }
+            ast::Expression::Cast(_, a) => self.expr(&a.node),
+            ast::Expression::BracedInit(_, inits) => {
+                for i in inits {
+                    self.init(i);
+                }
+            }
+            ast::Expression::SizeOf(_) => {}
+            ast::Expression::AmbiguousParseBranch(_) => {}
+        }
+    }
+    fn init(&mut self, i: &ast::Initializer) {
+        match i {
+            ast::Initializer::Expression(e) => self.expr(&e.node),
+            ast::Initializer::Aggregate(v) => {
+                for x in v {
+                    self.init(x);
+                }
+            }
+            ast::Initializer::StaticSampler(_) => {}
+        }
+    }
+    fn declarator_exprs(&mut self, d: &ast::Declarator) {
+        match d {
+            ast::Declarator::Array(a) => {
+                if let Some(sz) = &a.array_size {
+                    self.expr(&sz.node);
+                }
+                self.declarator_exprs(&a.inner);
+            }
+            ast::Declarator::Pointer(p) => self.declarator_exprs(&p.inner),
+            ast::Declarator::Reference(r) => self.declarator_exprs(&r.inner),
+            _ => {}
+        }
+    }
+    fn vardef(&mut self, vd: &ast::VarDef) {
+        for d in &vd.defs {
+            self.declarator_exprs(&d.declarator);
+            if let Some(i) = &d.init {
+                self.init(i);
+            }
+            if let (Some(n), _) = decl_name(&d.declarator) {
+                self.cur.locals.push(n.clone());
+                self.scopes.last_mut().unwrap().push(n);
+            }
+        }
+    }
+    fn block(&mut self, stmts: &[ast::Statement]) {
+        self.scopes.push(Vec::new());
+        for s in stmts {
+            self.stmt(s);
+        }
+        self.scopes.pop();
+    }
+    fn scoped(&mut self, s: &ast::Statement) {
+        self.scopes.push(Vec::new());
+        self.stmt(s);
+        self.scopes.pop();
+    }
+    fn stmt(&mut self, s: &ast::Statement) {
+        match &s.kind {
+            ast::StatementKind::Empty => {}
+            ast::StatementKind::Expression(e) => self.expr(e),
+            ast::StatementKind::Var(vd) => self.vardef(vd),
+            ast::StatementKind::AmbiguousDeclarationOrExpression(vd, _) => self.vardef(vd),
+            ast::StatementKind::Block(b) => self.block(b),
+            ast::StatementKind::If(c, t) => {
+                self.expr(&c.node);
+                self.scoped(t);
+            }
+            ast::StatementKind::IfElse(c, t, e) => {
+                self.expr(&c.node);
+                self.scoped(t);
+                self.scoped(e);
+            }
+            ast::StatementKind::For(init, c, inc, body) => {
+                self.scopes.push(Vec::new());
+                match init {
+                    ast::InitStatement::Empty => {}
+                    ast::InitStatement::Expression(e) => self.expr(&e.node),
+                    ast::InitStatement::Declaration(vd) => self.vardef(vd),
+                }
+                if let Some(c) = c {
+                    self.expr(&c.node);
+                }
+                if let Some(i) = inc {
+                    self.expr(&i.node);
+                }
+                self.scoped(body);
+                self.scopes.pop();
+            }
+            ast::StatementKind::While(c, b) => {
+                self.expr(&c.node);
+                self.scoped(b);
+            }
+            ast::StatementKind::DoWhile(b, c) => {
+                self.scoped(b);
+                self.expr(&c.node);
+            }
+            ast::StatementKind::Switch(c, b) => {
+                self.expr(&c.node);
+                self.scoped(b);
+            }
+            ast::StatementKind::Break | ast::StatementKind::Continue | ast::StatementKind::Discard => {}
+            ast::StatementKind::Return(e) => {
+                if let Some(e) = e {
+                    self.expr(&e.node);
+                }
+            }
+            ast::StatementKind::CaseLabel(e, s) => {
+                self.expr(&e.node);
+                self.stmt(s);
+            }
+            ast::StatementKind::DefaultLabel(s) => self.stmt(s),
+        }
+    }
+}
+
+fn walk_function(
+    fd: &ast::FunctionDefinition,
+    funcs: &BTreeSet<String>,
+    globals: &BTreeSet<String>,
+    file_scope: &BTreeSet<String>,
+    members: &[String],
+    in_helper_ns: bool,
+) -> DefInfo {
+    let mut w = Walker { funcs, globals, file_scope, scopes: vec![members.to_vec()], cur: DefInfo::default(), in_default: false };
+    w.cur.name = fd.name.node.clone();
+    w.cur.has_body = fd.body.is_some();
+    w.cur.in_helper_ns = in_helper_ns;
+    let mut pscope = Vec::new();
+    for p in &fd.params {
+        let (n, by_ref) = decl_name(&p.declarator);
+        let is_tt = n.is_none()
+            && matches!(&p.param_type.layout, ast::TypeLayout(id, _) if is_true_type(id));
+        let mut default_idents = Vec::new();
+        if let Some(d) = &p.default_expr {
+            w.in_default = true;
+            w.expr(d);
+            w.in_default = false;
+            w.idents_of(d, &mut default_idents);
+        }
+        if let Some(n) = &n {
+            pscope.push(n.clone());
+        }
+        w.cur.params.push(PInfo {
+            name: n.unwrap_or_else(|| if is_tt { "#tt".into() } else { "#anon".into() }),
+            by_ref,
+            is_tt,
+            has_default: p.default_expr.is_some(),
+            default_idents,
+        });
+    }
+    w.scopes.push(pscope);
+    if let Some(b) = &fd.body {
+        w.block(b);
+    }
+    w.cur
+}
+
+fn collect_defs(
+    defs: &[ast::RootDefinition],
+    funcs: &BTreeSet<String>,
+    globals: &BTreeSet<String>,
+    file_scope: &BTreeSet<String>,
+    in_helper: bool,
+    out: &mut Vec<DefInfo>,
+) {
+    for d in defs {
+        match d {
+            ast::RootDefinition::Function(fd) => out.push(walk_function(fd, funcs, globals, file_scope, &[], in_helper)),
+            ast::RootDefinition::Namespace(n, inner) => {
+                collect_defs(inner, funcs, globals, file_scope, in_helper || n.node == "helper", out)
+            }
+            ast::RootDefinition::Struct(sd) => {
+                let mut members = Vec::new();
+                for m in &sd.members {
+                    match m {
+                        ast::StructEntry::Variable(v) => {
+                            for d in &v.defs {
+                                if let (Some(n), _) = decl_name(&d.declarator) {
+                                    members.push(n);
+                                }
+                            }
+                        }
+                        ast::StructEntry::Method(m) => members.push(m.name.node.clone()),
+                    }
+                }
+                for m in &sd.members {
+                    if let ast::StructEntry::Method(fd) = m {
+                        out.push(walk_function(fd, funcs, globals, file_scope, &members, in_helper));
+                    }
+                }
+            }
+            _ => {}
+        }
+    }
+}
+
+fn file_scope_names(defs: &[ast::RootDefinition], out: &mut BTreeSet<String>) {
+    for d in defs {
+        match d {
+            ast::RootDefinition::GlobalVariable(gv) => {
+                for d in &gv.defs {
+                    if let (Some(n), _) = decl_name(&d.declarator) {
+                        out.insert(n);
+                    }
+                }
+            }
+            ast::RootDefinition::Enum(e) => {
+                for v in &e.values {
+                    out.insert(v.name.node.clone());
+                }
+            }
+            ast::RootDefinition::Namespace(_, inner) => file_scope_names(inner, out),
+            _ => {}
+        }
+    }
+}
+
+// ------------------------------------------------------------------------------------------ oracle
+
+const ENTRY_NAMES: &[&str] = &["ComputeShaderEntry", "VertexShaderEntry", "PixelShaderEntry", "MeshShaderEntry", "TaskShaderEntry"];
+
+/// `threaded`: names of globals Metal cannot keep at file scope (None: every name that some function receives as
+/// a by-reference parameter or that is a local of the entry wrapper — used for free-form source)
+fn oracle(defs: &[DefInfo], threaded: &BTreeSet<String>, by_value_ok: &BTreeSet<String>) -> Vec<String> {
+    let mut fails = Vec::new();
+    let user: Vec<&DefInfo> = defs.iter().filter(|d| !d.in_helper_ns).collect();
+    // O1
+    for d in &user {
+        for u in &d.unscoped {
+            fails.push(format!("O1 {} uses {} which is not in scope", d.name, u));
+        }
+    }
+    let mut by_name: BTreeMap<&str, Vec<&DefInfo>> = BTreeMap::new();
+    for d in &user {
+        by_name.entry(d.name.as_str()).or_default().push(d);
+    }
+    // O2
+    for d in &user {
+        for c in &d.calls {
+            let Some(cands) = by_name.get(c.callee.as_str()) else { continue };
+            let mut reasons = Vec::new();
+            let mut matched = false;
+            for cand in cands {
+                let ps = &cand.params;
+                if c.args.len() > ps.len() {
+                    reasons.push(format!("{} arguments for {} parameters", c.args.len(), ps.len()));
+                    continue;
+                }
+                if ps[c.args.len()..].iter().any(|p| !p.has_default) {
+                    reasons.push(format!("{} arguments for {} parameters", c.args.len(), ps.len()));
+                    continue;
+                }
+                let tt_ok = ps.iter().zip(&c.args).all(|(p, a)| p.is_tt == (a == "#tt"));
+                if !tt_ok {
+                    reasons.push("tag parameter mismatch".into());
+                    continue;
+                }
+                let mut ok = true;
+                for (k, (p, a)) in ps.iter().zip(&c.arg_idents).enumerate() {
+                    if threaded.contains(&p.name) {
+                        let denotes = (a.1 && a.0 == [p.name.clone()])
+                            || (ENTRY_NAMES.contains(&d.name.as_str()) && c.args[k] == format!("set.{}", p.name));
+                        if !denotes {
+                            ok = false;
+                            reasons.push(format!("parameter {} ({}) receives {}", k, p.name, c.args[k]));
+                        }
+                    }
+                }
+                if ok {
+                    matched = true;
+                    break;
+                }
+            }
+            if !matched {
+                fails.push(format!("O2 call {}({}) in {}: {}", c.callee, c.args.join(","), d.name, reasons.join("; ")));
+            }
+        }
+    }
+    // well-formed declarations: defaults only at the end
+    for d in &user {
+        let mut seen = false;
+        for p in &d.params {
+            if p.has_default {
+                seen = true;
+            } else if seen {
+                fails.push(format!("O2 {}: parameter {} without default follows a defaulted parameter", d.name, p.name));
+                break;
+            }
+        }
+    }
+    // O3 needs: least fixpoint over definitions by name
+    let mut needs: BTreeMap<&str, BTreeSet<String>> = BTreeMap::new();
+    for d in &user {
+        let e = needs.entry(d.name.as_str()).or_default();
+        for m in &d.mentioned {
+            if threaded.contains(m) && !d.locals.contains(m) {
+                e.insert(m.clone());
+            }
+        }
+    }
+    loop {
+        let mut changed = false;
+        for d in &user {
+            for c in &d.calls {
+                if c.callee == d.name {
+                    continue;
+                }
+                let add: Vec<String> = needs.get(c.callee.as_str()).map(|s| s.iter().cloned().collect()).unwrap_or_default();
+                let e = needs.entry(d.name.as_str()).or_default();
+                for a in add {
+                    if !d.locals.contains(&a) && e.insert(a) {
+                        changed = true;
+                    }
+                }
+            }
+        }
+        if !changed {
+            break;
+        }
+    }
+    for d in &user {
+        if ENTRY_NAMES.contains(&d.name.as_str()) {
+            continue;
+        }
+        let has: BTreeSet<String> = d.params.iter().filter(|p| threaded.contains(&p.name)).map(|p| p.name.clone()).collect();
+        let want = needs.get(d.name.as_str()).cloned().unwrap_or_default();
+        for m in want.difference(&has) {
+            fails.push(format!("O3 {} needs {} but has no parameter for it", d.name, m));
+        }
+        for m in has.difference(&want) {
+            fails.push(format!("O3 {} receives {} but never needs it", d.name, m));
+        }
+        for p in &d.params {
+            if threaded.contains(&p.name) && !p.by_ref && !by_value_ok.contains(&p.name) {
+                fails.push(format!("O3 {} receives {} by value", d.name, p.name));
+            }
+        }
+    }
+    fails.sort();
+    fails.dedup();
+    fails
+}
+
+// ------------------------------------------------------------------------------------------ running the real code
+
+fn msl_params() -> rssl::ir::AssignBindingsParams {
+    rssl::ir::AssignBindingsParams {
+        require_slot_type: false,
+        support_buffer_address: false,
+        metal_slot_layout: true,
+        static_samplers_have_slots: false,
+    }
+}
+
+enum Real {
+    FrontError(String),
+    GenError(String),
+    Panic(String),
+    Ok(rssl::ir::Module, ast::Module),
+}
+
+fn run_real(src: &str) -> Real {
+    let ir = match guard(|| front_end_src(src)) {
+        Ok(Ok(ir)) => ir,
+        Ok(Err(e)) => return Real::FrontError(format!("{}: {}", e.stage(), one_line(e.text()))),
+        Err(p) => return Real::Panic(p),
+    };
+    let r = guard(|| {
+        let selected = if let Some(p) = ir.pipelines.first() {
+            let n = p.name.node.clone();
+            ir.clone().select_pipeline(&n).unwrap()
+        } else {
+            ir.clone()
+        };
+        let bound = selected.assign_api_bindings(&msl_params());
+        rssl_msl::verif_generate_ast(&bound).map_err(|e| match e {
+            rssl_msl::ExportError::GenerateError(g) => format!("{:?}", g),
+            rssl_msl::ExportError::FormatError(f) => format!("{:?}", f),
+        })
+    });
+    match r {
+        Ok(Ok(m)) => Real::Ok(ir, m),
+        Ok(Err(e)) => Real::GenError(e),
+        Err(p) => Real::Panic(p),
+    }
+}
+
+/// `file:line: message` -> `file: message` (line numbers move with unrelated edits)
+fn panic_site(p: &str) -> String {
+    let mut parts = p.splitn(3, ':');
+    match (parts.next(), parts.next(), parts.next()) {
+        (Some(f), Some(l), Some(m)) if l.chars().all(|c| c.is_ascii_digit()) => format!("{}:{}", f, m),
+        _ => p.to_string(),
+    }
+}
+
+fn show_def(d: &DefInfo) -> String {
+    let ps: Vec<String> = d
+        .params
+        .iter()
+        .map(|p| format!("{}{}", if p.by_ref { "&" } else { "" }, p.name))
+        .collect();
+    let cs: Vec<String> = d.calls.iter().map(|c| format!("{}({})", c.callee, c.args.join(","))).collect();
+    format!("{}({}){{{}}}", d.name, ps.join(","), cs.join(";"))
+}
+
+fn closure_text(ir: &rssl::ir::Module, funcs: &[String], globals: &BTreeSet<String>) -> String {
+    use rssl::ir::usage_analysis::{GlobalUsageAnalysis, UsageSymbol};
+    let fset: BTreeSet<&String> = funcs.iter().collect();
+    let usage = GlobalUsageAnalysis::calculate(ir);
+    let mut ids = BTreeMap::new();
+    for id in ir.function_registry.iter() {
+        if ir.function_registry.get_intrinsic_data(id).is_none() {
+            ids.insert(ir.function_registry.get_function_name(id).to_string(), id);
+        }
+    }
+    let mut parts = Vec::new();
+    for f in funcs {
+        let Some(id) = ids.get(f) else {
+            parts.push(format!("{}=?", f));
+            continue;
+        };
+        let mut names = Vec::new();
+        for s in usage.get_usage_for_function(*id) {
+            match s {
+                UsageSymbol::Function(fid) => {
+                    let n = ir.function_registry.get_function_name(*fid).to_string();
+                    if ir.function_registry.get_intrinsic_data(*fid).is_none() && fset.contains(&n) {
+                        names.push(n);
+                    }
+                }
+                UsageSymbol::GlobalVariable(gid) => {
+                    let n = ir.global_registry[gid.0 as usize].name.node.clone();
+                    if globals.contains(&n) {
+                        names.push(n);
+                    }
+                }
+                UsageSymbol::ConstantBuffer(c) => names.push(format!("cb{}", c.0)),
+            }
+        }
+        names.sort();
+        parts.push(format!("{}={{{}}}", f, names.join(",")));
+    }
+    parts.join(";")
+}
+
+struct Outcome {
+    obs: String,
+    oracle: String,
+}
+
+fn analyse(
+    ir: &rssl::ir::Module,
+    m: &ast::Module,
+    funcs: &[String],
+    globals: &BTreeSet<String>,
+    threaded: Option<&BTreeSet<String>>,
+    by_value_ok: &BTreeSet<String>,
+    entry: Option<&str>,
+    hist: &mut Hist,
+) -> Outcome {
+    let fset: BTreeSet<String> = funcs.iter().cloned().collect();
+    let mut file_scope = BTreeSet::new();
+    file_scope_names(&m.root_definitions, &mut file_scope);
+    let mut defs = Vec::new();
+    collect_defs(&m.root_definitions, &fset, globals, &file_scope, false, &mut defs);
+    // free-form source: threaded names = everything passed by reference under a non-`p_`/`__` name, plus entry locals
+    let inferred: BTreeSet<String>;
+    let threaded = match threaded {
+        Some(t) => t,
+        None => {
+            let mut s = BTreeSet::new();
+            for d in &defs {
+                if d.in_helper_ns {
+                    continue;
+                }
+                if ENTRY_NAMES.contains(&d.name.as_str()) {
+                    for l in &d.locals {
+                        s.insert(l.clone());
+                    }
+                }
+            }
+            // parameters that carry the same name in two different functions and are references
+            let mut seen: BTreeMap<String, usize> = BTreeMap::new();
+            for d in &defs {
+                for p in &d.params {
+                    if p.by_ref && !p.is_tt {
+                        *seen.entry(p.name.clone()).or_insert(0) += 1;
+                    }
+                }
+            }
+            for d in &defs {
+                for u in &d.unscoped {
+                    s.insert(u.split(' ').next().unwrap_or("").to_string());
+                }
+            }
+            let _ = seen;
+            inferred = s;
+            &inferred
+        }
+    };
+    let fails = oracle(&defs, threaded, by_value_ok);
+    let shown: Vec<String> = defs
+        .iter()
+        .filter(|d| !d.in_helper_ns && d.has_body && fset.contains(&d.name))
+        .map(show_def)
+        .collect();
+    let entry_text = match entry {
+        None => "-".to_string(),
+        Some(e) => {
+            let w = defs.iter().find(|d| ENTRY_NAMES.contains(&d.name.as_str()));
+            match w {
+                None => "missing".into(),
+                Some(w) => {
+                    let locals: Vec<String> = w.locals.iter().filter(|l| globals.contains(*l)).cloned().collect();
+                    let call = w.calls.iter().find(|c| c.callee == e);
+                    format!(
+                        "locals={};call={}",
+                        locals.join(","),
+                        call.map(|c| format!("{}({})", c.callee, c.args.join(","))).unwrap_or("?".into())
+                    )
+                }
+            }
+        }
+    };
+    let n_tramp = shown.iter().filter(|s| s.contains("#tt,") || s.contains("#tt)")).count() / 2;
+    hist.add(&format!("trampolines={}", n_tramp.min(3)));
+    let max_implicit = defs
+        .iter()
+        .map(|d| d.params.iter().filter(|p| threaded.contains(&p.name)).count())
+        .max()
+        .unwrap_or(0);
+    hist.add(&format!("max_implicit_params={}", max_implicit.min(6)));
+    Outcome {
+        obs: format!("defs:{}|close:{}|entry:{}", shown.join(" "), closure_text(ir, funcs, globals), entry_text),
+        oracle: if fails.is_empty() { "ok".into() } else { format!("FAIL:{}", fails.join(" ## ")) },
+    }
+}
+
+fn run_thread(line: &str, out: &mut Out, hist: &mut Hist) {
+    let Some(p) = parse_prog(line) else {
+        out.case(line, "bad-request", "SKIP:unparsable request");
+        return;
+    };
+    let src = match render_src(&p) {
+        Ok(s) => s,
+        Err(e) => {
+            out.case(line, "unrenderable", &format!("SKIP:{}", e));
+            return;
+        }
+    };
+    for f in &p.funcs {
+        for it in &f.items {
+            hist.add(&format!("pos={}", it.pos));
+            match &it.what {
+                What::Use(g) => hist.add(&format!("use={}", p.globals.get(*g).map(|g| g.class.as_str()).unwrap_or("?"))),
+                What::Call(_, a) => hist.add(&format!("call_args={}", a.len())),
+            }
+        }
+    }
+    hist.add(&format!("funcs={}", p.funcs.len()));
+    hist.add(&format!("globals={}", p.globals.len()));
+    hist.add(&format!("depth={}", call_depth(&p)));
+    match run_real(&src) {
+        Real::FrontError(e) => {
+            hist.add("front-error");
+            out.case(line, &format!("front-error:{}", e), "SKIP:generated program rejected by the front end");
+        }
+        Real::GenError(e) => {
+            hist.add("generate-error");
+            out.case(line, &format!("generate-error:{}", e), "ok");
+        }
+        Real::Panic(pn) => {
+            hist.add("panic");
+            out.case(line, &format!("panic:{}", panic_site(&pn)), &format!("FAIL:panic {}", pn));
+        }
+        Real::Ok(ir, m) => {
+            let funcs: Vec<String> = p.funcs.iter().map(|f| f.name.clone()).collect();
+            let globals: BTreeSet<String> = p.globals.iter().map(|g| g.name.clone()).collect();
+            let threaded: BTreeSet<String> = p.globals.iter().filter(|g| g.threaded()).map(|g| g.name.clone()).collect();
+            let by_value_ok: BTreeSet<String> =
+                p.globals.iter().filter(|g| g.storage == 'E' && g.object).map(|g| g.name.clone()).collect();
+            let entry = p.entry.and_then(|e| p.funcs.get(e)).map(|f| f.name.clone());
+            let o = analyse(&ir, &m, &funcs, &globals, Some(&threaded), &by_value_ok, entry.as_deref(), hist);
+            hist.add(if o.oracle == "ok" { "oracle-ok" } else { "oracle-fail" });
+            out.case(line, &o.obs, &o.oracle);
+        }
+    }
+}
+
+fn run_src(line: &str, out: &mut Out, hist: &mut Hist) {
+    let f: Vec<&str> = line.split('\t').collect();
+    let Some(src) = f.get(1).and_then(|h| unhex(h)).and_then(|b| String::from_utf8(b).ok()) else {
+        out.case(line, "bad-request", "SKIP:unparsable request");
+        return;
+    };
+    match run_real(&src) {
+        Real::FrontError(e) => out.case(line, &format!("front-error:{}", e), "SKIP:rejected by the front end"),
+        Real::GenError(e) => out.case(line, &format!("generate-error:{}", e), "ok"),
+        Real::Panic(pn) => out.case(line, &format!("panic:{}", panic_site(&pn)), &format!("FAIL:panic {}", pn)),
+        Real::Ok(ir, m) => {
+            // every non-intrinsic function and every global of the module
+            let mut funcs = Vec::new();
+            for id in ir.function_registry.iter() {
+                if ir.function_registry.get_intrinsic_data(id).is_none() {
+                    let n = ir.function_registry.get_function_name(id).to_string();
+                    if !funcs.contains(&n) {
+                        funcs.push(n);
+                    }
+                }
+            }
+            let globals: BTreeSet<String> =
+                ir.global_registry.iter().filter(|g| !g.is_intrinsic).map(|g| g.name.node.clone()).collect();
+            let mut threaded = BTreeSet::new();
+            let mut by_value_ok = BTreeSet::new();
+            for g in ir.global_registry.iter().filter(|g| !g.is_intrinsic) {
+                let is_const = ir.type_registry.is_const(g.type_id);
+                let constant = (is_const && g.storage_class == rssl::ir::GlobalStorage::Static) || g.static_sampler.is_some();
+                if !constant {
+                    threaded.insert(g.name.node.clone());
+                }
+                if g.storage_class == rssl::ir::GlobalStorage::Extern {
+                    by_value_ok.insert(g.name.node.clone());
+                }
+            }
+            let entry = ir
+                .pipelines
+                .first()
+                .and_then(|p| p.stages.first())
+                .map(|s| ir.function_registry.get_function_name(s.entry_point).to_string());
+            let o = analyse(&ir, &m, &funcs, &globals, Some(&threaded), &by_value_ok, entry.as_deref(), hist);
+            out.case(line, &o.obs, &o.oracle);
+        }
+    }
+}
+
+// ------------------------------------------------------------------------------------------ generator
+
+fn call_depth(p: &GProg) -> usize {
+    let mut depth = vec![0usize; p.funcs.len()];
+    for (i, f) in p.funcs.iter().enumerate() {
+        for it in &f.items {
+            if let What::Call(c, _) = &it.what {
+                if *c < i {
+                    depth[i] = depth[i].max(depth[*c] + 1);
+                }
+            }
+        }
+    }
+    depth.into_iter().max().unwrap_or(0)
+}
+
+/// Random call graph over statics/groupshared/externs. Default arguments and global initialisers stay inside the
+/// configurations in which the analysis is complete (they only mention file-scope constants): the shapes on
+/// which it is not are listed findings and live in corpus/C02.txt.
+fn gen_prog(rng: &mut Rng, big: bool) -> GProg {
+    let ng = rng.below(if big { 9 } else { 6 }) as usize;
+    let mut globals: Vec<GGlobal> = Vec::new();
+    for i in 0..ng {
+        let row = match rng.below(12) {
+            0..=3 => &CLASSES[0],
+            4 => &CLASSES[1],
+            5 | 6 => &CLASSES[2],
+            7 => &CLASSES[3],
+            8 => &CLASSES[4],
+            9 => &CLASSES[5],
+            10 => &CLASSES[6],
+            _ => &CLASSES[7],
+        };
+        let fl = row.1;
+        let mut inits = Vec::new();
+        if row.0 == "plain" && fl == "S" {
+            for (k, g) in globals.iter().enumerate() {
+                if g.class == "plain" && g.is_const && rng.chance(1, 2) {
+                    inits.push(k);
+                }
+            }
+        }
+        globals.push(GGlobal {
+            name: format!("g_{}", i),
+            storage: fl.chars().next().unwrap(),
+            is_const: fl.contains('c'),
+            sampler: fl.contains('x'),
+            object: fl.contains('o'),
+            class: row.0.to_string(),
+            inits,
+        });
+    }
+    let nf = 1 + rng.below(if big { 9 } else { 6 }) as usize;
+    let mut funcs: Vec<GFunc> = Vec::new();
+    // does function i (transitively) mention a threaded global?  (to keep defaulted functions clean)
+    let mut dirty: Vec<bool> = Vec::new();
+    for i in 0..nf {
+        let nparams = rng.below(4) as usize;
+        let mut modes: Vec<char> = (0..nparams).map(|_| *rng.pick(&['i', 'i', 'o', 'b'])).collect();
+        let defaulted = rng.chance(1, 6);
+        if defaulted {
+            modes.push('d');
+            if rng.chance(1, 3) {
+                modes.push('d');
+            }
+        }
+        let mut items = Vec::new();
+        let nitems = rng.below(if big { 8 } else { 6 }) as usize;
+        let mut is_dirty = false;
+        for _ in 0..nitems {
+            let pos = loop {
+                let p = *rng.pick(POSITIONS);
+                if p != "rt" || rng.chance(1, 3) {
+                    break p;
+                }
+            };
+            let want_call = i > 0 && rng.chance(1, 2);
+            if want_call {
+                let c = rng.below(i as u64) as usize;
+                if defaulted && dirty[c] {
+                    continue;
+                }
+                let callee = &funcs[c];
+                // number of arguments: all, or drop some trailing defaulted ones
+                let nd = callee.modes.iter().rev().take_while(|m| **m == 'd').count();
+                let n_args = callee.modes.len() - rng.below(nd as u64 + 1) as usize;
+                let mut args = Vec::new();
+                for k in 0..n_args {
+                    let out = matches!(callee.modes[k], 'o' | 'b');
+                    let cands: Vec<usize> = globals
+                        .iter()
+                        .enumerate()
+                        .filter(|(_, g)| {
+                            let row = g.class_row().unwrap();
+                            (if out { row.4.is_some() } else { g.class != "sampler" }) && !(defaulted && g.threaded())
+                        })
+                        .map(|(k, _)| k)
+                        .collect();
+                    if !cands.is_empty() && rng.chance(1, 3) {
+                        let g = *rng.pick(&cands);
+                        if globals[g].threaded() {
+                            is_dirty = true;
+                        }
+                        args.push(Some(g));
+                    } else {
+                        args.push(None);
+                    }
+                }
+                if dirty[c] {
+                    is_dirty = true;
+                }
+                let pos = if pos == "wr" { "xs" } else { pos };
+                items.push(GItem { pos: pos.to_string(), what: What::Call(c, args) });
+            } else if !globals.is_empty() {
+                let g = rng.below(globals.len() as u64) as usize;
+                let gl = &globals[g];
+                if defaulted && gl.threaded() {
+                    continue;
+                }
+                let row = gl.class_row().unwrap();
+                let pos = if gl.class == "sampler" {
+                    *rng.pick(&["xs", "sq", "bl"])
+                } else if pos == "wr" && row.4.is_none() {
+                    "op"
+                } else {
+                    pos
+                };
+                if gl.threaded() {
+                    is_dirty = true;
+                }
+                items.push(GItem { pos: pos.to_string(), what: What::Use(g) });
+            }
+        }
+        // a default argument that mentions a file-scope constant or calls a clean function
+        if defaulted && rng.chance(1, 2) {
+            let consts: Vec<usize> =
+                globals.iter().enumerate().filter(|(_, g)| g.class == "plain" && g.is_const).map(|(k, _)| k).collect();
+            let clean: Vec<usize> =
+                (0..i).filter(|c| !dirty[*c] && funcs[*c].modes.iter().all(|m| *m == 'i' || *m == 'd')).collect();
+            if !consts.is_empty() && rng.chance(1, 2) {
+                items.insert(0, GItem { pos: "da".into(), what: What::Use(*rng.pick(&consts)) });
+            } else if !clean.is_empty() {
+                let c = *rng.pick(&clean);
+                let n = funcs[c].modes.len();
+                items.insert(0, GItem { pos: "da".into(), what: What::Call(c, vec![None; n]) });
+            }
+        }
+        dirty.push(is_dirty);
+        funcs.push(GFunc { name: format!("f_{}", i), modes, items });
+    }
+    // entry point: calls a few functions, mentions a few globals
+    let entry = if rng.chance(5, 6) {
+        let mut items = Vec::new();
+        for c in 0..nf {
+            if rng.chance(1, 2) {
+                let callee = &funcs[c];
+                let args = callee.modes.iter().map(|_| None).collect();
+                items.push(GItem { pos: (*rng.pick(&["xs", "vi", "ib", "fb"])).to_string(), what: What::Call(c, args) });
+            }
+        }
+        for g in 0..globals.len() {
+            if rng.chance(1, 4) {
+                let pos = if globals[g].class == "sampler" { "xs" } else { *rng.pick(&["xs", "vi", "op", "ic"]) };
+                items.push(GItem { pos: pos.to_string(), what: What::Use(g) });
+            }
+        }
+        funcs.push(GFunc { name: "cs_main".into(), modes: vec!['i'], items });
+        Some(nf)
+    } else {
+        None
+    };
+    GProg { globals, funcs, entry }
+}
+
+pub fn run(args: &Args, out: &mut Out) {
+    let mut hist = Hist::default();
+    if let Some(lines) = args.request_lines() {
+        for line in lines {
+            if line.starts_with("C02.thread\t") {
+                run_thread(&line, out, &mut hist);
+            } else if line.starts_with("C02.src\t") {
+                run_src(&line, out, &mut hist);
+            }
+        }
+        out.stat(&format!("{{\"mode\":\"replay\",\"hist\":{}}}", hist.json()));
+        return;
+    }
+    let n = args.n.unwrap_or(if args.thorough() { 20000 } else { 400 });
+    let mut rng = Rng::new(args.seed);
+    // every position once with every class, in a two-level call chain
+    for pos in POSITIONS {
+        for (ci, row) in CLASSES.iter().enumerate() {
+            if (row.0 == "sampler" && !["xs", "sq", "bl"].contains(pos)) || (*pos == "wr" && row.4.is_none()) {
+                continue;
+            }
+            let g = GGlobal {
+                name: format!("g_{}", ci),
+                storage: row.1.chars().next().unwrap(),
+                is_const: row.1.contains('c'),
+                sampler: row.1.contains('x'),
+                object: row.1.contains('o'),
+                class: row.0.to_string(),
+                inits: vec![],
+            };
+            let p = GProg {
+                globals: vec![g],
+                funcs: vec![
+                    GFunc { name: "f_0".into(), modes: vec![], items: vec![GItem { pos: pos.to_string(), what: What::Use(0) }] },
+                    GFunc { name: "f_1".into(), modes: vec![], items: vec![GItem { pos: pos.to_string(), what: What::Call(0, vec![]) }] },
+                    GFunc { name: "cs_main".into(), modes: vec!['i'], items: vec![GItem { pos: "xs".into(), what: What::Call(1, vec![]) }] },
+                ],
+                entry: Some(2),
+            };
+            run_thread(&show_prog(&p), out, &mut hist);
+        }
+    }
+    for k in 0..n {
+        let p = gen_prog(&mut rng, k % 4 == 3);
+        run_thread(&show_prog(&p), out, &mut hist);
+    }
+    out.stat(&format!("{{\"programs\":{},\"hist\":{}}}", n, hist.json()));
 }
